@@ -2,7 +2,7 @@
 EXTENDS RRT, Json, MCCommon
 
 Emit ==
-  (MC_Emit /\ pc' = "idle" /\ res'.kind # "none" /\ (pc = "loop" \/ ncalls' # ncalls)) =>
+  (MC_Emit /\ ((EmitAll /\ Len(hist') > Len(hist) /\ hist'[Len(hist')].c = "it") \/ (pc' = "idle" /\ res'.kind # "none" /\ (pc = "loop" \/ ncalls' # ncalls)))) =>
      PrintT(<<"HIST", ToJson([planner |-> "rrt", topo |-> MC_T, maxd |-> MC_MaxDist, rad2 |-> 0, lvs |-> MC_Lvs,
                              bias |-> MC_Bias, seeded |-> MC_Seeded, worlds |-> worlds, probs |-> probs,
                              calls |-> hist'])>>)
